@@ -142,6 +142,32 @@ func mtuScenarios(o *hx.Out, g *hx.Rng, tier string) {
 			}
 		})
 	}
+	// a shrink at a group BOUNDARY (no open group: outside D11) after groups whose parity was skipped
+	// because the data was not continuous: nothing of the old size may survive in the encoder, the
+	// parity of the next continuous group must fit the new MTU (seeded change C10-9)
+	for _, ci := range []cipherSpec{cipherKinds[0], cipherKinds[1], cipherKinds[5]} {
+		for _, fec := range [][2]int{{2, 1}, {3, 2}} {
+			cfg := randomConfig(g, ci, fec)
+			cfg.counting, cfg.sndwnd, cfg.rcvwnd, cfg.stream = true, 128, 128, false
+			mg := g.Fork()
+			runHistory(o, g, cfg, func(w *world) {
+				for i := 0; i < 2*fec[0]; i++ {
+					w.write(w.A, mg.Bytes(1300))
+					w.update(w.A)
+					if !w.quiesce() {
+						return
+					}
+					w.sleep(700)
+				}
+				w.safeSetMtu2(w.A, 600)
+				w.sleep(700)
+				for i := 0; i < 2*fec[0]; i++ {
+					w.write(w.A, mg.Bytes(400))
+					w.update(w.A)
+				}
+			})
+		}
+	}
 	// D2: shrink while segments cut for the old MTU are still queued
 	for _, m := range []int{1000, 50 + 28} {
 		cfg := randomConfig(g, cipherKinds[0], [2]int{0, 0})
